@@ -296,6 +296,16 @@ func coqTField(f *TField, d *ids) string {
 	return fmt.Sprintf("{| tf_vals := %s; tf_trans := [%s] |}", hx.List(vals, coqTpl), strings.Join(tr, "; "))
 }
 
+// a reference member: the reference itself and, for group/label/user references, its `engine:"evaluated"`
+// name_match / email_match member (assets/group.go, label.go, user.go), which the reflection walk visits next
+func coqRefItems(r Ref) []string {
+	items := []string{"IRef " + coqRef(r.Kind, r.ID)}
+	if r.Match != "" {
+		items = append(items, fmt.Sprintf("ITpl {| tf_vals := [%s]; tf_trans := [] |}", coqTpl(r.Match)))
+	}
+	return items
+}
+
 var saverCoq = map[string]string{"call_classifier": "SvCallClassifier", "call_resthook": "SvCallResthook", "call_webhook": "SvCallWebhook",
 	"open_ticket": "SvOpenTicket", "transfer_airtime": "SvTransferAirtime"}
 
@@ -307,10 +317,10 @@ func coqAction(a *Action, d *ids) string {
 			items = append(items, "ITpl "+coqTField(it.Tpl, d))
 		case it.IsRefs:
 			for _, r := range it.Refs {
-				items = append(items, "IRef "+coqRef(r.Kind, r.ID))
+				items = append(items, coqRefItems(r)...)
 			}
 		case it.Ref != nil:
-			items = append(items, "IRef "+coqRef(it.Ref.Kind, it.Ref.ID))
+			items = append(items, coqRefItems(*it.Ref)...)
 		}
 	}
 	behav := "BPlain"
